@@ -282,12 +282,17 @@ func (p *Posix) doesBucketAndObjectExist(bucket, object string) error {
 		return fmt.Errorf("stat bucket: %w", err)
 	}
 
-	_, err = os.Stat(filepath.Join(bucket, object))
+	fi, err := os.Stat(filepath.Join(bucket, object))
 	if errors.Is(err, fs.ErrNotExist) || errors.Is(err, syscall.ENOTDIR) {
 		return s3err.GetAPIError(s3err.ErrNoSuchKey)
 	}
 	if err != nil {
 		return fmt.Errorf("stat object: %w", err)
+	}
+	// "obj/" is not the key of the file object "obj", nor "dir" the key
+	// of the directory object "dir/"
+	if strings.HasSuffix(object, "/") != fi.IsDir() {
+		return s3err.GetAPIError(s3err.ErrNoSuchKey)
 	}
 
 	return nil
@@ -1389,7 +1394,7 @@ func (p *Posix) CreateMultipartUpload(ctx context.Context, mpu s3response.Create
 
 	// set object tagging
 	if tags != nil {
-		err := p.PutObjectTagging(ctx, bucket, filepath.Join(objdir, uploadID), tags)
+		err := p.putAttrTags(bucket, filepath.Join(objdir, uploadID), tags)
 		if err != nil {
 			// cleanup object if returning error
 			os.RemoveAll(filepath.Join(tmppath, uploadID))
@@ -4879,12 +4884,9 @@ func (p *Posix) DeleteBucketTagging(ctx context.Context, bucket string) error {
 }
 
 func (p *Posix) GetObjectTagging(_ context.Context, bucket, object string) (map[string]string, error) {
-	_, err := os.Stat(bucket)
-	if errors.Is(err, fs.ErrNotExist) {
-		return nil, s3err.GetAPIError(s3err.ErrNoSuchBucket)
-	}
+	err := p.doesBucketAndObjectExist(bucket, object)
 	if err != nil {
-		return nil, fmt.Errorf("stat bucket: %w", err)
+		return nil, err
 	}
 
 	return p.getAttrTags(bucket, object)
@@ -4912,6 +4914,18 @@ func (p *Posix) getAttrTags(bucket, object string) (map[string]string, error) {
 }
 
 func (p *Posix) PutObjectTagging(_ context.Context, bucket, object string, tags map[string]string) error {
+	// the key must name an existing object (with the sidecar metadata store
+	// the attribute could be stored for a name that has no object at all)
+	err := p.doesBucketAndObjectExist(bucket, object)
+	if err != nil {
+		return err
+	}
+
+	return p.putAttrTags(bucket, object, tags)
+}
+
+// putAttrTags stores (or with nil tags removes) the tag attribute of a path
+func (p *Posix) putAttrTags(bucket, object string, tags map[string]string) error {
 	_, err := os.Stat(bucket)
 	if errors.Is(err, fs.ErrNotExist) {
 		return s3err.GetAPIError(s3err.ErrNoSuchBucket)
